@@ -389,11 +389,13 @@ Definition gap_ok (base sep : Q) (c : con) : bool :=
 
 Definition var_ok (v : nvar) (x : Q) : bool := negb (off_desired v x).
 
-Definition seg_written_ok (tol : Q) (s : seg) (x w : Q) : bool :=
+Definition seg_written_ok (unify : bool) (tol : Q) (s : seg) (x w : Q) : bool :=
   if sfixed s then Qeqb w (spos s)
   else Qeqb w (Qmin' (Qmax' x (smin s)) (smax s)) &&
        (negb (Qleb (smin s) (smax s)) || (Qleb (smin s) w && Qleb w (smax s))) &&
-       Qleb (Qabs' (w - x)) (SAT_TOL + tol).   (* the clamp moved it by no more than the channel variables may be off *)
+       (unify || Qleb (Qabs' (w - x)) (SAT_TOL + tol)).
+       (* nudging stage: the clamp moved it by no more than the channel variables may be off; the unifying stage has no
+          channel constraints and relies on the clamp *)
 
 Definition nudge_region_ok (tol : Q) (R : region) (g : gst) (sat : bool) (sep : Q) (cs : list con) (xs : list Q)
            (pos : list Q) : bool :=
@@ -405,7 +407,7 @@ Definition nudge_region_ok (tol : Q) (R : region) (g : gst) (sat : bool) (sep : 
     forallb (gap_ok (rbase R) sep) cs &&
     forallb (fun vx : nvar * Q => var_ok (fst vx) (snd vx)) (combine (gvs g) xs) &&
     forallb (fun isw : (nat * seg) * Q =>
-               seg_written_ok tol (snd (fst isw)) (nth (seg_var g (fst (fst isw))) xs 0) (snd isw))
+               seg_written_ok (runify R) tol (snd (fst isw)) (nth (seg_var g (fst (fst isw))) xs 0) (snd isw))
             (combine (indexed (rsegs R)) pos)
   else
     Nat.eqb (length pos) (length (rsegs R)) &&
